@@ -10,7 +10,7 @@ namespace Rarena
 structure Guards (o : Opts) : Prop where
   cap : o.cap + 8192 ≤ TWO32
   minSeg : o.minSeg < TWO32
-  retries : 1 ≤ o.retries ∧ o.retries ≤ 255
+  retries : o.retries ≤ 255
 
 /-- the initial concrete session of an arena created with options `o` -/
 def CSess.start (s : St) : CSess := { st := s, held := [], detached := [] }
